@@ -62,9 +62,9 @@ VARIANTS = {
     ],
     "thorough": [
         ("expr4", {"MaxExprSize": 4, "MaxModSize": 7}, None),
-        ("expr2", {"Kinds": {"BinOp", "Call"}, "MaxStmts": 2, "MaxModSize": 10, "MaxWild": 1,
+        ("expr2", {"Kinds": {"BinOp"}, "MaxStmts": 2, "MaxModSize": 10, "MaxWild": 1,
                    "FocusKinds": {"expr"}}, None),
-        ("stmts", {"Names": {"a"}, "Kinds": set(), "MaxExprSize": 1, "MaxStmts": 2, "MaxModSize": 15, "MaxWild": 1,
+        ("stmts", {"Names": {"a"}, "Kinds": set(), "MaxExprSize": 1, "MaxStmts": 2, "MaxModSize": 14, "MaxWild": 1,
                    "FocusKinds": {"stmts"},
                    "StmtKindsOn": {"Expr", "Assign", "If", "IfElse", "Elif", "ElifElse", "While", "While2", "IfIf",
                                    "Def"}}, None),
@@ -237,6 +237,16 @@ def verbatim_substitution(src, offs, mod_tree, beh, goal_text, order):
 
 
 def run_behaviour(beh):
+    try:
+        return pt.with_timeout(60, _run_behaviour, beh)
+    except pt.Hang:
+        src = pt.render(beh["src"])[0]
+        return {"fails": [{"clause": "Hang"}], "stats": {"matches": 0, "regions": 0, "goals": 0, "changed": 0,
+                                                          "refused": 0, "unjudged": 0},
+                "src": src, "pattern": pt.render(beh["patsrc"])[0], "args": {}, "beh_digest": ""}
+
+
+def _run_behaviour(beh):
     common.use_repo()
     from rope.base import exceptions
     from rope.refactor import restructure, similarfinder
@@ -386,18 +396,23 @@ def key_of(f):
     return k
 
 
-def run_tlc(job):
+def run_tlc(job, put):
     tier, k, (name, variant, nsim) = job
-    behs = []
+    count = [0]
+
+    def on_beh(tag, value):
+        count[0] += 1
+        put(value)
+
     cfg = os.path.join(common.SCRATCH_BASE, "c19_%s_%d.cfg" % (name, os.getpid()))
     tlc.write_cfg(cfg, spec=("SimSpec" if nsim else "Spec"), constants=constants(tier, variant),
                   invariants=INVARIANTS + ["Export"])
-    res = tlc.run("MC_PyMatch", cfg, on_tagged=lambda t, v: behs.append(v), collect_tags=False,
+    res = tlc.run("MC_PyMatch", cfg, on_tagged=on_beh, collect_tags=False,
                   workers=(1 if nsim else 4), simulate=({"num": nsim} if nsim else None),
                   depth=(6 if nsim else None), seed=(1000 * common.SEED + k + 1 if nsim else None),
-                  coverage=(tier == "quick" and not nsim))
+                  coverage=(tier == "quick" and not nsim), java_opts=("-Xmx4g",))
     os.unlink(cfg)
-    return name, res, behs
+    return name, res, count[0]
 
 
 def sensitivity():
@@ -405,7 +420,7 @@ def sensitivity():
     cfg = os.path.join(common.SCRATCH_BASE, "c19_sens_%d.cfg" % os.getpid())
     variant = dict(VARIANTS["quick"][1][1])
     tlc.write_cfg(cfg, constants=constants("quick", variant), invariants=["MechIsRewrite"])
-    res = tlc.run("MC_PyMatch", cfg, workers=4)
+    res = tlc.run("MC_PyMatch", cfg, workers=4, java_opts=("-Xmx4g",))
     os.unlink(cfg)
     return res.violated
 
@@ -413,17 +428,56 @@ def sensitivity():
 def main(tier):
     timer = common.Timer()
     verdict = common.Verdict(PROP)
-    behs = []
     runs = {}
     variants = VARIANTS[tier]
     if os.environ.get("C19_ONLY"):
         variants = [v for v in variants if v[0] in os.environ["C19_ONLY"].split(",")]
-    from concurrent.futures import ThreadPoolExecutor
-    with ThreadPoolExecutor(max_workers=4) as ex:
-        results = list(ex.map(run_tlc, [(tier, k, v) for k, v in enumerate(variants)]))
-    for name, res, bs in results:
+    tlc_results = []
+    seen = set()
+
+    def producer(put):
+        # the same (module, pattern, layout) may be reached by several runs: replay it once
+        def put_new(b):
+            d = common.digest([b["mod"], b["pat"], b["deco"], b["exact"]])
+            if d not in seen:
+                seen.add(d)
+                put(b)
+        from concurrent.futures import ThreadPoolExecutor
+        with ThreadPoolExecutor(max_workers=4) as ex:
+            for r in ex.map(lambda job: run_tlc(job, put_new), [(tier, k, v) for k, v in enumerate(variants)]):
+                tlc_results.append(r)
+
+    root = common.scratch("c19_")
+    _W_ROOT[0] = root
+    totals = {}
+    replayed = 0
+    nontrivial = 0
+    samples = []
+    first = None
+    try:
+        for r in pt.stream_map(run_behaviour, producer, chunk=100):
+            replayed += 1
+            if "machinery" in r:
+                verdict.machinery_failure(r["machinery"][:600])
+                continue
+            if first is None:
+                first = r
+            for k, v in r["stats"].items():
+                totals[k] = totals.get(k, 0) + v
+            if r["stats"]["changed"]:
+                nontrivial += 1
+            if len(samples) < 4 and r["stats"]["matches"] >= 2 and replayed % 11 == 0:
+                samples.append({"module": r["src"], "pattern": r["pattern"], "args": r["args"],
+                                "instances": r["stats"]["matches"], "goals_checked": r["stats"]["goals"]})
+            for f in r["fails"]:
+                verdict.failure(key_of(f), {"property": PROP, "key": key_of(f), "module": r["src"],
+                                            "pattern": r["pattern"], "args": r["args"], "detail": f})
+    finally:
+        common.rmtree(root)
+    for name, res, nb in tlc_results:
         runs[name] = res.summary()
-        print("TLC PyMatch[%s]:" % name, res.summary(), "behaviours", len(bs))
+        runs[name]["behaviours"] = nb
+        print("TLC PyMatch[%s]:" % name, res.summary(), "behaviours", nb)
         if not res.ok:
             if res.violated:
                 path = common.write_replay(PROP, {"kind": "tlc-counterexample", "invariant": res.violated,
@@ -437,48 +491,13 @@ def main(tier):
             for a in ("AddStmt", "Abstract"):
                 if a in res.coverage and res.coverage[a][1] == 0:
                     verdict.machinery_failure("action %s never taken" % a)
-        behs.extend(bs)
     sens = None
     if tier == "thorough":
         sens = sensitivity()
         if sens != "MechIsRewrite":
             verdict.machinery_failure("model insensitive: MechIsRewrite not refuted (%s)" % sens)
-    # the same (module, pattern, layout) may be reached by several runs
-    seen = set()
-    uniq = []
-    for b in behs:
-        d = common.digest([b["mod"], b["pat"], b["deco"], b["exact"]])
-        if d not in seen:
-            seen.add(d)
-            uniq.append(b)
-    behs = uniq
-    behs.sort(key=lambda b: json.dumps(b, sort_keys=True))
-    root = common.scratch("c19_")
-    _W_ROOT[0] = root
-    totals = {}
-    replayed = 0
-    nontrivial = set()
-    samples = []
-    try:
-        for r in replay.pool_map(run_behaviour, behs, chunk=100):
-            replayed += 1
-            if "machinery" in r:
-                verdict.machinery_failure(r["machinery"][:600])
-                continue
-            for k, v in r["stats"].items():
-                totals[k] = totals.get(k, 0) + v
-            if r["stats"]["changed"]:
-                nontrivial.add(r["beh_digest"])
-            if len(samples) < 4 and r["stats"]["matches"] >= 2 and replayed % 11 == 0:
-                samples.append({"module": r["src"], "pattern": r["pattern"], "args": r["args"],
-                                "instances": r["stats"]["matches"], "goals_checked": r["stats"]["goals"]})
-            for f in r["fails"]:
-                verdict.failure(key_of(f), {"property": PROP, "key": key_of(f), "module": r["src"],
-                                            "pattern": r["pattern"], "args": r["args"], "detail": f})
-    finally:
-        common.rmtree(root)
-    if not samples and behs:
-        samples.append({"module": pt.render(behs[0]["src"])[0], "pattern": pt.render(behs[0]["patsrc"])[0]})
+    if first is not None and not samples:
+        samples.append({"module": first["src"], "pattern": first["pattern"]})
     if replayed == 0:
         verdict.machinery_failure("no behaviours exported")
     code = verdict.finish()
@@ -490,7 +509,7 @@ def main(tier):
         "exhaustive": False,
         "exhaustive_within": [n for n, v, k in variants if not k],
         "random_behaviours": [n for n, v, k in variants if k],
-        "distinct_nontrivial": len(nontrivial),
+        "distinct_nontrivial": nontrivial,
         "rule": "one behaviour per (module, pattern, layout) terminal state of the TLC graph; each is replayed "
                 "against get_matches (whole module and every node region) and, per legal goal, Restructure and "
                 "restructure.replace; non-trivial = at least one goal changed the module text",
